@@ -119,7 +119,11 @@ func (v *VM) Call(name string, xRets int, params ...Value) (rets []Value, err er
 	return v.Func(v.globals.Get(name), xRets, params...)
 }
 
-func (v *VM) Yield() { v.Call(builtinYield, 0) }
+func (v *VM) Yield() {
+	if _, err := v.Call(builtinYield, 0); err != nil {
+		panic(err) // natives report errors by panicking: the caller's run turns it into its error
+	}
+}
 
 type RunOption func(*runConfig)
 
